@@ -1,3 +1,4 @@
+mod canon;
 mod core;
 mod crash;
 mod e3;
